@@ -483,6 +483,9 @@ func (p *specParser) parsePrimary() Expr {
 		case "nil":
 			return ENil{}
 		case "old":
+			if !p.isOp("(") {
+				break // a variable that happens to be called "old"
+			}
 			p.expectOp("(")
 			x := p.parseTop()
 			p.expectOp(")")
